@@ -32,7 +32,8 @@ CHECKS = {
              "with >=1 refunded contract call AND >=1 supply change by issue/mint/burn AND >=1 send in flight at a checkpoint; "
              "distinct = hash of the concrete draw sequence",
         assumptions=HIST_ASSUME,
-        jobs=[dict(test="TestC01", quick=T(8, 30, 45), thorough=T(16, 250, 80, 3000))],
+        jobs=[dict(test="TestC01", quick=T(6, 30, 45), thorough=T(12, 250, 80, 3000)),
+              dict(test="TestC01Reorg", quick=T(2, 25), thorough=T(4, 150, 0, 3000))],
     ),
     "C02": dict(
         level="exploration",
